@@ -25,7 +25,7 @@ fn main() {
     if args.iter().all(|a| a != "--only") { if let Err(e) = refmodel::selftest::run() { eprintln!("ENGINE-ERROR reference self-test failed: {e}"); std::process::exit(2); } }
     let mut c = Ctx::from_args(&id, "P", &args[1..]);
     // spawned commands carry their own timeouts (up to 240 s for three-digit vanity searches); the in-process watchdog sits above them
-    if std::env::var("VERIF_CASE_TIMEOUT").is_err() { c.case_timeout = std::time::Duration::from_secs(600); }
+    if std::env::var("VERIF_CASE_TIMEOUT").is_err() { c.case_timeout = std::time::Duration::from_secs(1500); }
     c.at_exit = refmodel::trace::flush;
     let ctx: &'static Ctx = Box::leak(Box::new(c));
     match id.as_str() {
